@@ -216,6 +216,10 @@ for _p in ("C06", "C08"):
     PROPS[_p]["tasks"].append("Market accessors read their own series")
 for _p in ("C09", "C11"):
     PROPS[_p]["tasks"].append("SequentialRunner._update_markets")
+from .census import CALLERS as _CALLERS
+for _g, (_ps, _r, _t) in _CALLERS.items():
+    for _p in _ps:
+        PROPS[_p]["tasks"].append(f"census:callers[{_g}]")
 for _p in ("C07", "C13", "C15", "C16", "C18"):
     PROPS[_p]["tasks"].append("effects:no-shared-mutable-state")
 PROPS["C15"]["tasks"] += ["PriceLimitRule.setup"]
